@@ -57,6 +57,7 @@ def run(ctx):
     malsec.field_transport(ctx, facts, "FIELDS-block")
     tables(ctx, facts)
     fiat_shamir(ctx, facts)
+    malsec.hash_cover(ctx, facts)       # the challenges bind exactly what the hashes absorb
     ctx.assume("Lagrange interpolation identities and the u/v table algebra are not decided")
 
 
